@@ -202,12 +202,65 @@ def corr_parser(ctx: Ctx, drv):
                       nontrivial=int(idxi.numel()) > 0, stratum=("finite_cutoff" if cutoff < 1e9 else "default_cutoff"))
 
 
+def corr_pack(ctx: Ctx, drv):
+    """real pack/unpack on index-valued matrices and the occupation count of Parser.forward vs the model"""
+    import types
+
+    import torch
+
+    from seqm.basics import Parser
+    from seqm.seqm_functions.pack import pack, unpack
+
+    rng = ctx.rng
+    for it in range(30 if ctx.thorough else 10):
+        nheavy, nhydro = int(rng.integers(0, 4)), int(rng.integers(0, 4))
+        if nheavy + nhydro == 0:
+            nhydro = 1
+        molsize = nheavy + nhydro + int(rng.integers(0, 3))
+        size = 4 * molsize
+        X = (1 + torch.arange(size * size)).reshape(1, size, size).to(torch.float64)
+        got = pack(X, torch.tensor([nheavy]), torch.tensor([nhydro]))[0].reshape(-1).to(torch.int64).tolist()
+        ans = drv.ask("packidx", nheavy, nhydro, molsize)
+        ctx.corr_case("pack (index map)", {"nheavy": nheavy, "nhydro": nhydro, "molsize": molsize}, ans[:6], got[:6], [int(a) for a in ans] == got if ans[0] != "bad-op" else False)
+        norb = 4 * nheavy + nhydro
+        X0 = (1 + torch.arange(norb * norb)).reshape(1, norb, norb).to(torch.float64)
+        got = unpack(X0, torch.tensor([nheavy]), torch.tensor([nhydro]), size)[0].reshape(-1).to(torch.int64).tolist()
+        ans = drv.ask("unpackidx", nheavy, nhydro, molsize, size)
+        ctx.corr_case("unpack (index map)", {"nheavy": nheavy, "nhydro": nhydro, "molsize": molsize}, ans[:6], got[:6], [int(a) for a in ans] == got if ans[0] != "bad-op" else False)
+    # occupation numbers incl. every raising case (fake valence table as in the model's protocol)
+    for it in range(120 if ctx.thorough else 40):
+        uhf = int(rng.integers(0, 2))
+        nval = int(rng.integers(1, 9))
+        charge = int(rng.integers(-3, 4))
+        mult = int(rng.integers(1, 6))
+        nat = 2
+        tore = torch.zeros(20, dtype=torch.float64)
+        tore[6], tore[1] = float(nval - 1) if nval > 1 else 0.0, 1.0
+        if nval == 1:
+            species = torch.tensor([[1, 0]])
+            norb = 1
+        else:
+            species = torch.tensor([[6, 1]])
+            norb = 5
+        const = types.SimpleNamespace(tore=tore, length_conversion_factor=1.0)
+        molns = types.SimpleNamespace(species=species, coordinates=torch.tensor([[[0.0, 0, 0], [1.0, 0, 0]]]), const=const, tot_charge=torch.tensor([float(charge)]), mult=torch.tensor([float(mult)]))
+        try:
+            out = Parser({"elements": [0, 1, 6], "UHF": bool(uhf)})(molns, "AM1")
+            nocc = out[5]
+            want = " ".join(str(int(v)) for v in nocc.reshape(-1).tolist())
+        except ValueError:
+            want = "raise"
+        ans = " ".join(drv.ask("nocc", uhf, nval, charge, mult, norb))
+        ctx.corr_case("Parser.forward occupations", {"uhf": uhf, "nval": nval, "charge": charge, "mult": mult, "norb": norb}, ans, want, ans == want, stratum="raise" if want == "raise" else "ok")
+
+
 def run(ctx: Ctx):
     leanproj.check_theorems(ctx, MODULE, THEOREMS)
     drv = leanproj.Driver()
     try:
         try:
             corr_parser(ctx, drv)
+            corr_pack(ctx, drv)
         except Exception:
             import traceback
             ctx.obligation("correspondence adapters C05 ran", False, traceback.format_exc()[-1500:], kind="harness")
